@@ -22,7 +22,7 @@ var Profiles = []string{"twins-lockstep", "async-chaos", "byz-leader", "partitio
 
 // GenConfig draws a configuration for one execution.
 func GenConfig(rng *vbase.Rng, profile string) Config {
-	cfg := Config{Profile: profile}
+	cfg := Config{Profile: profile, Intensity: rng.Intn(3)}
 	cfg.N = []int{4, 4, 4, 7}[rng.Intn(4)]
 	cfg.Ruleset = Rulesets[rng.Intn(3)]
 	switch rng.Intn(8) {
@@ -89,17 +89,20 @@ func GenConfig(rng *vbase.Rng, profile string) Config {
 	return cfg
 }
 
-// stepWeights: deliver, duplicate-deliver, timeout, byz, partition, heal, crash
-func stepWeights(profile string) []int {
+// stepWeights: deliver, duplicate-deliver, timeout, byz, partition, heal, crash (per mille).
+// intensity 0 (calm) .. 2 (hostile) scales the fault steps so that executions range from "commits
+// almost every view" to "hardly ever commits".
+func stepWeights(profile string, intensity int) []int {
+	k := []int{1, 3, 8}[intensity]
 	switch profile {
 	case "async-chaos":
-		return []int{70, 4, 6, 8, 3, 3, 1}
+		return []int{1000, 10 * k, 6 * k, 10 * k, 3 * k, 4 * k, k / 2}
 	case "byz-leader":
-		return []int{60, 2, 5, 25, 1, 2, 0}
+		return []int{1000, 5 * k, 5 * k, 40 * k, k, 2 * k, 0}
 	case "partition-heal":
-		return []int{60, 2, 8, 5, 8, 6, 1}
+		return []int{1000, 5 * k, 8 * k, 6 * k, 10 * k, 10 * k, k / 2}
 	}
-	return []int{80, 0, 5, 5, 0, 0, 0}
+	return []int{1000, 0, 5, 5, 0, 0, 0}
 }
 
 // hangSite extracts the innermost repository frame of the simulator goroutine (goroutine 1) from a dump.
@@ -159,7 +162,7 @@ func (c *Cluster) Run() {
 		}
 	}
 	crashBudget := vk.RefFaulty(c.Cfg.N) - len(c.faultyIDs())
-	w := stepWeights(c.Cfg.Profile)
+	w := stepWeights(c.Cfg.Profile, c.Cfg.Intensity)
 	for c.Step = 1; c.Step <= c.Cfg.Steps && c.Panic == nil; c.Step++ {
 		c.cmd.topUp()
 		if lock {
